@@ -386,6 +386,19 @@ func (p *Prog) geq(v ssa.Value, facts []Cmp, src func(ssa.Value) bool, depth int
 			}
 		}
 		return true
+	case *ssa.Field:
+		if call, ok := x.X.(*ssa.Call); ok {
+			return p.geqFieldOfResult(call, x.Field, src, depth)
+		}
+		return false
+	case *ssa.UnOp:
+		// the same through a local copy of the returned struct: found := recoverDir(db); … found.maxTs
+		if fa, ok := x.X.(*ssa.FieldAddr); ok && x.Op == token.MUL {
+			if call, ok := singleStore(fa.X).(*ssa.Call); ok {
+				return p.geqFieldOfResult(call, fa.Field, src, depth)
+			}
+		}
+		return false
 	case *ssa.Parameter:
 		if p.isExported(x.Parent()) {
 			return false
@@ -403,4 +416,59 @@ func (p *Prog) geq(v ssa.Value, facts []Cmp, src func(ssa.Value) bool, depth int
 		return true
 	}
 	return false
+}
+
+// geqFieldOfResult: a field of a struct a module function returned (values that travel together): every store into
+// that field of the local the function returns must be at least the value identified by src.
+func (p *Prog) geqFieldOfResult(call *ssa.Call, field int, src func(ssa.Value) bool, depth int) bool {
+	cs := p.Callees(call)
+	if len(cs) == 0 || call.Call.IsInvoke() {
+		return false
+	}
+	for _, g := range cs {
+		if !p.InModule(g) || len(g.Blocks) == 0 || g.Signature.Results().Len() != 1 {
+			return false
+		}
+		n, okAll := 0, true
+		eachInstr(g, func(ins ssa.Instruction) {
+			ret, isRet := ins.(*ssa.Return)
+			if !isRet {
+				return
+			}
+			ld, isLd := retOperand(ret, 0).(*ssa.UnOp)
+			if !isLd {
+				okAll = false
+				return
+			}
+			al, isAl := ld.X.(*ssa.Alloc)
+			if !isAl {
+				okAll = false
+				return
+			}
+			for _, ref := range *al.Referrers() {
+				switch y := ref.(type) {
+				case *ssa.Store:
+					if y.Addr == ssa.Value(al) {
+						okAll = false // the whole struct is overwritten somewhere
+					}
+				case *ssa.FieldAddr:
+					if y.Field != field {
+						continue
+					}
+					for _, r2 := range *y.Referrers() {
+						if st, isSt := r2.(*ssa.Store); isSt && st.Addr == ssa.Value(y) {
+							n++
+							if !p.geq(st.Val, factsAt(st), src, depth+1) {
+								okAll = false
+							}
+						}
+					}
+				}
+			}
+		})
+		if n == 0 || !okAll {
+			return false
+		}
+	}
+	return true
 }
